@@ -26,6 +26,7 @@ import (
 	"path/filepath"
 	"sort"
 	"strings"
+	"sync"
 
 	"github.com/NethermindEth/juno/adapters/sn2core"
 	"github.com/NethermindEth/juno/core"
@@ -45,6 +46,17 @@ func probeClassVersionLimited() bool {
 		return nil
 	})
 	return limited
+}
+
+var (
+	classVersionLimitedOnce sync.Once
+	classVersionLimitedVal  bool
+)
+
+// classVersionLimited: the variant of SierraClass.Hash() the code under test has (probed once)
+func classVersionLimited() bool {
+	classVersionLimitedOnce.Do(func() { classVersionLimitedVal = probeClassVersionLimited() })
+	return classVersionLimitedVal
 }
 
 func (w *wbuf) sierraEPs(eps []core.SierraEntryPoint) {
@@ -322,7 +334,7 @@ func runClassHash(f lib.Flags, res *lib.Result) {
 		return
 	}
 	defer drv.Close()
-	limited := probeClassVersionLimited()
+	limited := classVersionLimited()
 	if limited {
 		res.Hit("probe-class-version-limited")
 	} else {
